@@ -121,12 +121,30 @@ def items(tier):
         i += 1
     out.append((i, 'lintSeeds'))
     i += 1
+    for k in range(len(BIG_PROGRAMS)):
+        out.append((i, 'bigstack', k))
+        i += 1
     for fl in ('plain', 'you', 'defeat'):
         nb = len(lint_bodies(fl, tier))
         for lo in range(0, nb, 150):
             out.append((i, 'lintB', fl, lo, lo + 150))
             i += 1
     return out
+
+
+# programs run with the stack at its legal maximum (addresses beyond 2^(n-1)): globals and argv data then sit at the top of memory
+BIG_PROGRAMS = [
+    ('byte[] GB = [\'g\', \'l\', \'o\', \'b\'];\nint[] GI = [5, 6, 7];\nbool[] GO = [true, false, true];\nstring[] GS = ["s", "t"];\n'
+     'empty @is_you(byte[] m) { write(GB); write(m); GB[3] = m[0]; m[1] = GB[0]; writeln(GB); writeln(m); write(GI[2]); write(GO[2]); write(GS[1]); '
+     'for (int i = 0; i < m.length; i += 1) { write(m[i]); } int[] loc = [1, 2, 3]; byte v[m.length]; v[0] = \'v\'; write(v[0]); writeln(loc[2] + GI[0]); }', ['72', '105', '33']),
+    ('int g = 3;\nint[] GA = [1, 2, 3, 4];\nint sum(const int[] a) { int t = 0; for (int i = 0; i < a.length; i += 1) { t += a[i]; } return t; }\n'
+     'empty @is_you(int[] xs) { writeln(sum(xs)); writeln(sum(GA)); GA[3] = xs[0]; xs[1] = g; writeln(sum(GA) + sum(xs)); try { !truth_is_defeat(xs[0] == 7); writeln("t"); } stop { writeln("s"); } }',
+     ['7', '8', '9']),
+]
+
+
+def max_stack(W):
+    return ((1 << (8 * W - 1)) - 1) // W - 5
 
 
 class _Plain(c16.Printer):
@@ -237,6 +255,30 @@ def run_item(item, tier):
     elif kind == 'lintS':
         src = seq.build_S(seq.family_S('quick')[item[2]][1])
         lint(st, f'S[{item[2]}]', src)
+    elif kind == 'bigstack':
+        src, argv = BIG_PROGRAMS[item[2]]
+        prog = parse_program(src)
+        W = 2
+        ref = ref_trace(prog, argv, W)
+        for S in list(range(max_stack(W) - 12, max_stack(W) + 1)) + [max_stack(W) // 2, max_stack(W) // 2 + 1]:
+            case = {'kind': 'bigstack', 'k': item[2], 'S': S}
+            st.add('evaluations')
+            r, err = run_impl(src, argv, W, S, mon=svm.Monitor(scope=False))
+            if err:
+                st.viol(f'bigstack[{item[2]}]: stack size {S} (the legal maximum is {max_stack(W)}): {err}', case)
+                continue
+            st.vm(r)
+            if r.outcome != 'loop' or r.trace != ref[1]:
+                st.viol(f'bigstack[{item[2]}]: with a stack of {S} words (legal maximum {max_stack(W)}) the run differs from the reference: {describe(r)[:200]}', case)
+            elif r.violations:
+                st.viol(f'bigstack[{item[2]}]: stack {S}: monitor {r.violations[0]["msg"]}', case)
+            else:
+                st.add('traces_validated_against_impl')
+                st.add('big_stack_runs')
+        lines, err = compile_case(src, W, max_stack(W) + 1)
+        if not err:
+            st.viol(f'bigstack[{item[2]}]: a stack one word above the documented limit is accepted', {'kind': 'bigstack', 'k': item[2], 'S': max_stack(W) + 1})
+        st.sample({'stack_sizes_near_the_maximum': [max_stack(W) - 12, max_stack(W)], 'program': src[:120]})
     elif kind == 'lintB':
         _, _, fl, lo, hi = item
         for body in lint_bodies(fl, tier)[lo:hi]:
@@ -313,6 +355,7 @@ def coverage(total, tier):
                            'in-process and in a fresh process per PYTHONHASHSEED in ' + ('0..15' if tier == 'quick' else '0..63 plus two random seeds')
                            + ' (bound on the hash-seed dimension: not all 2^32 seeds)',
         'stack_monotonicity': 'full sweeps (every size from 1 word to S_min+8, then 256 and 1024) of S batches, all F programs and X programs',
+        'maximum_stack': 'two programs using global and argv arrays of every element type at the 13 largest legal stack sizes and around half of it (W=2)',
         'word_size_monotonicity': 'E, S batches and F programs at W 2,3,4,8 on runs whose 16-bit reference execution never wraps a value',
         'lint': 'S batches, all seed programs and every body of family B (C16) up to size ' + ('3' if tier == 'quick' else '4 (every 3rd of size 4)') + ' printed without statement markers: TypeCheckError or byte-identical assembly',
     })
@@ -344,6 +387,9 @@ def replay(case):
             for W in (2, 4):
                 row.append(hashlib.sha256(b'\n'.join(hid.compile_lines(sd[0][1], W, 64, unchecked))).hexdigest())
         return [] if got[0] == row else [f'{case["seed_name"]}: digests differ under PYTHONHASHSEED={case["hashseed"]}']
+    if k == 'bigstack':
+        st2 = run_item((0, 'bigstack', case['k']), 'quick')
+        return [v['msg'] for v in st2.get('viol', [])]
     if k == 'ws':
         import ast
         src = case['src']
